@@ -490,7 +490,9 @@ class Check:
                 self.known_hits.setdefault(k, (text, 0))
                 self.known_hits[k] = (text, self.known_hits[k][1] + 1)
                 return False
-        safe = re.sub(r"[^A-Za-z0-9_.-]", "_", key)[:80]
+        safe = re.sub(r"[^A-Za-z0-9_.-]", "_", key)
+        if len(safe) > 80:          # long keys: keep the file names distinct
+            safe = safe[:70] + "_" + hashlib.sha1(key.encode()).hexdigest()[:9]
         path = os.path.join(EVID, "replays", self.pid, safe + ".json")
         with open(path, "w") as f:
             json.dump({"property": self.pid, "key": key, "what": what, "case": replay_obj, "seed": self.seed, "tier": self.tier}, f, indent=1, default=str)
